@@ -65,25 +65,32 @@ def arc_center(
     # same as np.linalg.norm(vectors, axis=1)
     abc = np.sqrt(abc2)
 
-    # perform radius calculation scaled to shortest edge
-    # to avoid precision issues with small or large arcs
+    # check for colinear points with the edges scaled to the shortest
+    # one so the check is independent of the size of the arc
     scale = abc.min()
     # get the edge lengths scaled to the smallest
     edges = abc / scale
     # half the total length of the edges
     half = edges.sum() / 2.0
-    # check the denominator for the radius calculation
+    # the squared area of the scaled triangle: for a flat arc
+    # spanning `t` radians this is about `t ** 2 / 16`
     denom = half * np.prod(half - edges)
-    if denom < tol.merge:
+    if denom < tol.zero:
         raise ValueError("arc is colinear!")
-    # find the radius and scale back after the operation
-    radius = scale * ((np.prod(edges) / 4.0) / np.sqrt(denom))
 
-    # use a barycentric approach to get the center
-    ba2 = (abc2[[1, 2, 0, 0, 2, 1, 0, 1, 2]] * [1, 1, -1, 1, 1, -1, 1, 1, -1]).reshape(
-        (3, 3)
-    ).sum(axis=1) * abc2
-    center = points.T.dot(ba2) / ba2.sum()
+    # find the center relative to the first point from the two edges
+    # that start there: for a flat arc the center is far away and only
+    # differences of nearby points keep it consistent with those points
+    ab, ac = np.zeros(3), np.zeros(3)
+    ab[: points.shape[1]] = points[1] - points[0]
+    ac[: points.shape[1]] = points[2] - points[0]
+    cross = np.cross(ab, ac)
+    offset = (
+        np.dot(ac, ac) * np.cross(cross, ab) + np.dot(ab, ab) * np.cross(ac, cross)
+    ) / (2.0 * np.dot(cross, cross))
+    center = points[0] + offset[: points.shape[1]]
+    # the radius is the distance from the center to the first point
+    radius = np.sqrt(np.dot(offset, offset))
 
     if tol.strict:
         # all points should be at the calculated radius from center
@@ -117,8 +124,10 @@ def arc_center(
         dot = np.dot(*vector[[0, 2]])
         if dot < (_TOL_ZERO - 1):
             angle = np.pi
-        elif dot > 1 - _TOL_ZERO:
-            angle = 0.0
+        elif dot > 0.5:
+            # for a small angle the chord is exact where
+            # the arc- cosine loses half of the digits
+            angle = 2.0 * np.arcsin(min(abc[1] / (2.0 * radius), 1.0))
         else:
             angle = np.arccos(dot)
         # if the angle is nonzero and vectors are opposite direction
